@@ -53,3 +53,24 @@ def witness_inmemory_syntax():
 		os.chdir(cwd)
 		import shutil
 		shutil.rmtree(os.path.join(repo, '.cache'), ignore_errors=True)
+
+
+TRUSTED_BASE = ['lark.Lark.parse and the source provider may raise any exception (assumed externals)', 'the cache decorator returns the factory value or an equal stored one (cache-file errors belong to C05)']
+ASSUMPTIONS = ['exception freedom of the pipeline between the normalisation boundaries, and termination, are not decided by this check']
+
+
+def extra_checks(tier, seed, active_known):
+	from pyvc.driver import Extra
+	from twins import pipeline
+	n, fails = pipeline.syntax_boundary_twin()
+	okw, why = witness_inmemory_syntax()
+	if okw:
+		fails.append({'case': 'in-memory stray-colon', 'where': 'in-memory module', 'last_line': why})
+	x = Extra(name='unparsable sources are reported as tranp errors (on disk through the CLI, in memory through the loader)', kind='bounded', ok=not fails, cases=n + 1,
+		bound=f'{n} unparsable source files (stray token, dedent to an unopened column, invalid UTF-8, premature EOF, NUL byte, unbalanced bracket in a decorator) + 1 in-memory module',
+		detail=f'{len(fails)} cases not reported as Errors.*', samples=[{'case': 'dedent-to-unopened-column', 'verdict': 'reported as rogw.tranp.errors.Errors.Syntax'}])
+	x.distinct = n + 1
+	if fails:
+		x.violation = {'what': f'{fails[0]["case"]} ({fails[0]["where"]}) is not reported as a tranp error: {fails[0]["last_line"]}', 'function': 'rogw/tranp/implements/syntax/lark/parser.py:SyntaxParserOfLark.__load_entry', 'inputs': fails[0], 'clause': 'outcome in {ok} ∪ Errors.Error'}
+		x.finding_key = 'pipeline|syntax-boundary'
+	return [x]
